@@ -135,6 +135,7 @@ type Exec struct {
 	curPC    Term
 	curPos   token.Pos
 	globals  map[*ssa.Global]*Root
+	globalInit map[*ssa.Global]Term
 	typeTags map[string]int
 	externals map[string]bool
 	unfold   int
